@@ -52,7 +52,7 @@ def stepCore (tbl : Tbl) (s : DS) (t v : Bytes) : Except Kind DS :=
 /-- the `(mtype, ckPassed)` part of `stepField` -/
 def bk (ck : Nat) (m : Bytes × Bool) (t v : Bytes) : Bytes × Bool :=
   if t == tag10 then
-    (m.1, (match pyInt v with | some x => x == (ck : Int) | none => false))
+    (m.1, ckParse v == some ck)
   else if t == tag35 then (v, m.2) else m
 
 theorem closeWhile_nil (t : Tag) (top : Cont) : closeWhile t top [] = .ok (top, []) := by
@@ -169,7 +169,7 @@ theorem bkAll_fst (ck : Nat) (m : Bytes × Bool) (fs : List Fld) :
 
 theorem bkAll_snd_tag10 (ck : Nat) (m : Bytes × Bool) (fs : List Fld) (v : Bytes) :
     (bkAll ck m (fs ++ [⟨tag10, v⟩])).2 =
-      (match pyInt v with | some x => x == (ck : Int) | none => false) := by
+      (ckParse v == some ck) := by
   simp [bkAll, List.foldl_append, bk]
 
 end AsyncFix.Model.Codec
